@@ -367,11 +367,19 @@ func Check(c *core.Ctx) (map[string]any, []string, error) {
 		runErr = run("samevalue", cfg("sv", 1, true), tlc.Opts{Workers: c.Workers, Timeout: 10 * time.Minute})
 	}
 	if runErr == nil {
-		d := 2
+		d := 3
 		if c.Thorough() {
-			d = 3
+			d = 4
 		}
-		runErr = run(fmt.Sprintf("chain-bfs-depth%d", d), cfg("chain", d, true), tlc.Opts{Workers: c.Workers, Timeout: 30 * time.Minute})
+		runErr = run(fmt.Sprintf("chain-bfs-depth%d", d), cfg("chain", d, true), tlc.Opts{Workers: c.Workers, Timeout: 60 * time.Minute})
+	}
+	// (1c) creation order under deletion and re-creation: plain properties, long histories
+	if runErr == nil {
+		d := 5
+		if c.Thorough() {
+			d = 6
+		}
+		runErr = run(fmt.Sprintf("order-bfs-depth%d", d), cfg("order", d, true), tlc.Opts{Workers: c.Workers, Timeout: 60 * time.Minute})
 	}
 	// (2) exhaustive histories to a depth bound
 	if runErr == nil {
